@@ -64,6 +64,11 @@ impl<'a, 'd> TreeFmt<'a, 'd> {
 	}
 
 	fn draw<F: fmt::Write>(&self, f: &mut F) -> fmt::Result {
+		// A tree has no more entries than fit in its section, directories which contain themselves are cut off there
+		let mut budget = self.dir.resources().section.len() / 8;
+		self.draw_entries(f, &mut budget)
+	}
+	fn draw_entries<F: fmt::Write>(&self, f: &mut F, budget: &mut usize) -> fmt::Result {
 		// Encode if root in depth
 		let (root, depth) = if self.depth == !0 { (true, 0) } else { (false, self.depth) };
 
@@ -74,6 +79,11 @@ impl<'a, 'd> TreeFmt<'a, 'd> {
 
 		let mut entries = self.dir.entries();
 		while let Some(e) = entries.next() {
+			// Quiet failsafe, same as above
+			if *budget == 0 {
+				return Ok(());
+			}
+			*budget -= 1;
 			// Print the margin
 			for open in (0..depth).map(|i| self.margin & (1 << i) != 0) {
 				f.write_str(if open { self.art.margin_open } else { self.art.margin_draw })?;
@@ -101,7 +111,7 @@ impl<'a, 'd> TreeFmt<'a, 'd> {
 					depth: depth + 1,
 					margin: self.margin | (tail as u32) << depth,
 				}
-				.draw(f)?;
+				.draw_entries(f, budget)?;
 			}
 		}
 		Ok(())
